@@ -18,6 +18,7 @@ package c17
 
 import (
 	"context"
+	"encoding/json"
 	"fmt"
 	"math/rand"
 	"os"
@@ -48,6 +49,7 @@ type keyVariant struct {
 	keys   [2]execution.GroupKey
 	gid    [2]string
 	times  [2]time.Time
+	strs   [2]string
 	tIndex int
 }
 
@@ -69,6 +71,7 @@ func variants() []keyVariant {
 		v.keys = [2]execution.GroupKey{mkKey(ta, sa, timeFirst), mkKey(tb, sb, timeFirst)}
 		v.gid = [2]string{trigh.GroupID(ta, sa), trigh.GroupID(tb, sb)}
 		v.times = [2]time.Time{ta, tb}
+		v.strs = [2]string{sa, sb}
 		return v
 	}
 	return []keyVariant{
@@ -91,7 +94,12 @@ func (v keyVariant) identify(k execution.GroupKey) string {
 	if len(k) != 2 {
 		return fmt.Sprintf("?len%d", len(k))
 	}
-	return trigh.GroupID(k[v.tIndex].Time, k[1-v.tIndex].Str)
+	for i := 0; i < 2; i++ {
+		if k[1-v.tIndex].Str == v.strs[i] && k[v.tIndex].Time.Equal(v.times[i]) {
+			return v.gid[i]
+		}
+	}
+	return "?" + trigh.GroupID(k[v.tIndex].Time, k[1-v.tIndex].Str)
 }
 
 func partAConfigs() []trigh.Config {
@@ -157,12 +165,15 @@ func runSeqA(c *core.Ctx, cfg trigh.Config, v keyVariant, seq []byte, st *aStats
 		got := real.Poll()
 		want := model.Poll()
 		st.polls++
+		if corrupt && len(want) > 0 {
+			want = want[1:] // self-test: a deliberately wrong expectation
+		}
+		if len(got) == 0 && len(want) == 0 {
+			continue
+		}
 		gm := map[string]int{}
 		for _, k := range got {
 			gm[v.identify(k)]++
-		}
-		if corrupt && len(want) > 0 {
-			want = want[1:] // self-test: a deliberately wrong expectation
 		}
 		wm := map[string]int{}
 		for _, k := range want {
@@ -283,6 +294,26 @@ func partA(c *core.Ctx) {
 	add(partAConfigs(), L)
 	add(partATriples(), Ltriple)
 	if c.Only != "" {
+		// id = a/<config>/<variant>/<sequence>
+		parts := strings.SplitN(c.Only, "/", 4)
+		if len(parts) == 4 && parts[0] == "a" {
+			for _, j := range jobs {
+				if j.cfg.Name() == parts[1] && j.v.name == parts[2] {
+					var seq []byte
+					for _, w := range strings.Fields(parts[3]) {
+						for code, name := range []string{"K0", "K1", "W+1", "W+2", "END"} {
+							if w == name {
+								seq = append(seq, byte(code))
+							}
+						}
+					}
+					st := &aStats{}
+					runSeqA(c, j.cfg, j.v, seq, st, false)
+					c.Eval(st.evals)
+					return
+				}
+			}
+		}
 		return
 	}
 	seqsPerJob := make([]int, len(jobs))
@@ -578,7 +609,8 @@ func outKeyID(sh shape, o nodeh.Out) string {
 	return nodeh.RowKey(o.Record.Values[:sh.keyCols])
 }
 
-func judgeB(c *core.Ctx, cs caseB, corrupt bool) {
+func judgeB(c *core.Ctx, cs caseB, corruptMode int) {
+	corrupt := corruptMode != 0
 	c.Eval(1)
 	sql := cs.sh.sel + cs.cfg.Clause()
 	events := toEvents(cs.evs, cs.sh)
@@ -597,7 +629,7 @@ func judgeB(c *core.Ctx, cs caseB, corrupt bool) {
 		c.Violation("error", "query returned error: "+res.Err.Error(), replay)
 		return
 	}
-	if corrupt {
+	if corruptMode == 1 {
 		// self-test: corrupt the recording (drop the last emitted record) - the oracle must fire
 		for i := len(outs) - 1; i >= 0; i-- {
 			if !outs[i].IsWatermark {
@@ -606,6 +638,30 @@ func judgeB(c *core.Ctx, cs caseB, corrupt bool) {
 			}
 		}
 		replay["selftest"] = "last output record dropped from the recording"
+	}
+	if corruptMode == 2 {
+		// self-test: a recording as a group-by that polls AFTER forwarding the watermark would
+		// produce it (each watermark moved in front of the records of its step)
+		var re []nodeh.Out
+		for i := 0; i < len(outs); {
+			j := i
+			for j < len(outs) && outs[j].Step == outs[i].Step {
+				j++
+			}
+			for _, o := range outs[i:j] {
+				if o.IsWatermark {
+					re = append(re, o)
+				}
+			}
+			for _, o := range outs[i:j] {
+				if !o.IsWatermark {
+					re = append(re, o)
+				}
+			}
+			i = j
+		}
+		outs = re
+		replay["selftest"] = "watermarks moved in front of the records of their step"
 	}
 	s := simulate(cs.cfg, cs.sh, cs.evs)
 	m := len(cs.evs)
@@ -653,8 +709,10 @@ func judgeB(c *core.Ctx, cs caseB, corrupt bool) {
 			got := obs[step][g]
 			dueTotal += len(due)
 			emissions += len(got)
-			// (1) nothing is emitted for a key no trigger fired in this step
-			if len(due) == 0 && len(got) > 0 {
+			// (1) nothing is emitted for a key no trigger fired in this step. Judged for the
+			// single-trigger configurations only: in a multi-trigger, re-emissions of an unchanged
+			// row are explicitly not violations (DESIGN 3.4); (2) still applies to them.
+			if single && len(due) == 0 && len(got) > 0 {
 				fails = append(fails, failure{"not-due", g, step, fmt.Sprintf("step %d: %d record(s) emitted for key %s although no trigger was due for it", step, len(got), g)})
 			}
 			// (2) every inserted row is a result the key had during this step
@@ -677,8 +735,9 @@ func judgeB(c *core.Ctx, cs caseB, corrupt bool) {
 			// (3) the due results appear, in order
 			if len(due) > 0 {
 				i := 0
+				// one emitted state satisfies consecutive firings that were due with that same state
 				for _, st := range traj {
-					if i < len(due) && st == due[i] {
+					for i < len(due) && st == due[i] {
 						i++
 					}
 				}
@@ -782,18 +841,20 @@ func judgeB(c *core.Ctx, cs caseB, corrupt bool) {
 
 	if len(fails) > 0 {
 		// classification by input predicate + symptom
-		var tks []trigh.TK
-		for g, ts := range s.gTimes {
-			for _, t := range ts {
-				tks = append(tks, trigh.TK{T: t, Rest: s.gRest[g] + "#" + g})
-			}
-		}
 		colliding := map[string]bool{}
 		if cs.sh.timeCol >= 0 {
-			for i := range tks {
-				for j := range tks {
-					if i != j && tks[i].Rest != tks[j].Rest && trigh.SameInstantDifferentRepr(tks[i].T, tks[j].T) {
-						colliding[tks[i].Rest[strings.Index(tks[i].Rest, "#")+1:]] = true
+			for g1, ts1 := range s.gTimes {
+				for g2, ts2 := range s.gTimes {
+					if g1 == g2 {
+						continue
+					}
+					for _, t1 := range ts1 {
+						for _, t2 := range ts2 {
+							if trigh.SameInstantDifferentRepr(t1, t2) {
+								colliding[g1] = true
+								colliding[g2] = true
+							}
+						}
 					}
 				}
 			}
@@ -802,7 +863,7 @@ func judgeB(c *core.Ctx, cs caseB, corrupt bool) {
 		for _, f := range fails {
 			key := f.kind + ":" + cs.cfg.Name() + "@" + cs.sh.name
 			if corrupt {
-				key = "selftest:" + f.kind
+				key = fmt.Sprintf("selftest%d:%s", corruptMode, f.kind)
 			} else if cs.cfg.Has('W') && colliding[f.gid] && (f.kind == "due-missing" || f.kind == "wm-missing" || f.kind == "wm-stale") {
 				key = findingKey
 			}
@@ -828,7 +889,12 @@ func judgeB(c *core.Ctx, cs caseB, corrupt bool) {
 			}
 		}
 	}
-	c.Count("b/"+cs.kind+"/"+cs.sh.name+"/"+cs.cfg.Name(), 1)
+	if cs.kind == "rnd" {
+		c.Count("b/rnd/shape/"+cs.sh.name, 1)
+		c.Count("b/rnd/config/"+cs.cfg.Name(), 1)
+	} else {
+		c.Count("b/"+cs.kind+"/"+cs.sh.name+"/"+cs.cfg.Name(), 1)
+	}
 	c.Count("b/due_firings_checked", dueTotal)
 	c.Count("b/output_records_attributed", emissions)
 	beforeEnd := 0
@@ -849,7 +915,9 @@ func judgeB(c *core.Ctx, cs caseB, corrupt bool) {
 			c.Count("b/nontrivial_with_watermark", 1)
 		}
 	}
-	c.Sample(replay)
+	if h := core.Hash(cs.id); h[0] == '0' && h[1] < '4' {
+		c.Sample(replay)
+	}
 }
 
 func sortedSet(m map[string]bool) []string {
@@ -1038,7 +1106,13 @@ func partB(c *core.Ctx) {
 		if c.Only != "" && c.Only != cs.id {
 			return
 		}
-		judgeB(c, cs, selftest && i%997 == 0)
+		mode := 0
+		if selftest && i%997 == 0 {
+			mode = 1
+		} else if selftest && i%997 == 1 && cs.cfg.Has('W') {
+			mode = 2
+		}
+		judgeB(c, cs, mode)
 	})
 }
 
@@ -1103,9 +1177,33 @@ func randomScript(rng *rand.Rand, n int, mixedLoc bool) []ev {
 
 // =============================================================================================
 
+// replayID: --replay <file> re-executes the case whose id the replay file carries.
+func replayID(c *core.Ctx) {
+	if c.Replay == "" {
+		return
+	}
+	data, err := os.ReadFile(c.Replay)
+	if err != nil {
+		return
+	}
+	var body struct {
+		Case struct {
+			ID string `json:"id"`
+		} `json:"case"`
+	}
+	if json.Unmarshal(data, &body) == nil && body.Case.ID != "" {
+		c.Only = body.Case.ID
+	}
+}
+
 func Run(c *core.Ctx) core.FinishOpts {
+	replayID(c)
+	t0 := time.Now()
 	partA(c)
+	c.Note("info_wall_part_a_s", time.Since(t0).Seconds())
+	t0 = time.Now()
 	partB(c)
+	c.Note("info_wall_part_b_s", time.Since(t0).Seconds())
 	return core.FinishOpts{
 		Level: "exploration",
 		Rule: "(a) every event sequence over 2 keys x {record, watermark +1, watermark +2} up to the stated length, optionally ended by end-of-stream, " +
